@@ -1189,6 +1189,8 @@ func checkC09(p *Prog, r *Report) {
 	ruleAbortMachinery(p, r)
 	ruleHTTPStatus(p, r)
 	ruleValidatorsExamineAllLines(p, r)
+	r.rule("R09.9", "The rejecting return of the output validators (asa/ios isValidOutput) keeps its audited controlling conditions (tables/guards.tsv rows for C09): a non-empty line is rejected unless it is an INFO: or WARNING: line (ASA: or expected output of that command kind); a further class of lines that is waved through changes these conditions.")
+	ruleGuardTable(p, r, "R09.9", "C09")
 	ruleShortCircuitSkips(p, r, sessionPkgs, newSummarizer(p))
 	ruleStatusAfterSession(p, r, "R13.2")
 	ruleTruthfulStatus(p, r, "R13.5")
